@@ -515,3 +515,81 @@ def _fe_variants():
 
 
 _fe_variants()
+
+
+# ------------------------------------------------------------------------------------------------
+# defer2 (backmp11): deferral at any nesting level and in orthogonal regions -- a submachine whose machine
+# state defers one event while its substates defer others, a second region with its own deferring state,
+# one conditionally deferring state
+reg(Zoo(
+    name='defer2',
+    events=['d1', 'd2', 'x1', 'go', 'lv', 'tg'],
+    configs=['m', 'mf', 'mc'],
+    root=Machine(
+        'D2Root',
+        states=[
+            S('DS', kind='sub', defer=['x1'], sub=Machine(
+                'DS',
+                states=[S('I1', defer=['d1']), S('I2', defer=['d2'], cond_defer=True)],
+                initial=['I1'],
+                rows=[
+                    R('I1', 'go', 'I2', a=False, g=False),
+                    R('I2', 'go', 'I1', a=False, g=False),
+                    R('I2', 'd1', None, g=False),
+                    R('I2', 'd2', None, g=False),
+                ],
+            )),
+            S('Out'),
+            S('R1'), S('R2', defer=['d2']),
+        ],
+        initial=['DS', 'R1'],
+        rows=[
+            R('DS', 'lv', 'Out', a=False, g=False),
+            R('Out', 'lv', 'DS', a=False, g=False),
+            R('Out', 'd1', None, g=False),
+            R('Out', 'x1', None, g=False),
+            R('R1', 'tg', 'R2', a=False, g=False),
+            R('R2', 'tg', 'R1', a=False, g=False),
+            R('R1', 'd2', None, g=False),
+        ],
+    ),
+))
+
+
+# deferh{N,A,S}: deferral inside a submachine under each history policy (back: the submachine's deferred
+# queue follows the policy on exit; backmp11: the root's pool keeps the event)
+def _deferh(tag, history):
+    reg(Zoo(
+        name='deferh' + tag,
+        events=['d1', 'go', 'en', 'eh', 'lv'],
+        root=Machine(
+            'HRoot2',
+            states=[
+                S('Out'),
+                S('HS', kind='sub', sub=Machine(
+                    'HS',
+                    states=[S('J1', defer=['d1']), S('J2')],
+                    initial=['J1'],
+                    rows=[
+                        R('J1', 'go', 'J2', a=False, g=False),
+                        R('J2', 'go', 'J1', a=False, g=False),
+                        R('J2', 'd1', None, g=False),
+                    ],
+                    history=history,
+                )),
+            ],
+            initial=['Out'],
+            rows=[
+                R('Out', 'en', 'HS', a=False, g=False),
+                R('Out', 'eh', 'HS', a=False, g=False),
+                R('HS', 'lv', 'Out', a=False, g=False),
+                R('HS', 'eh', 'Out', a=False, g=False),
+                R('Out', 'd1', None, g=False),
+            ],
+        ),
+    ))
+
+
+_deferh('N', None)
+_deferh('A', 'always')
+_deferh('S', ('shallow', ['eh']))
